@@ -32,6 +32,63 @@ CLAIMED = {
          'the Appendix B model; namespace-constraint violations must be reported.',
          'Trusts the Appendix B model in pbt/props/C06.py and pyexpat (XML 1.0); lookupPrefix checked with a validity predicate.',
          '3 C06'),
+ 'C05': ('exhaustive enumeration (C++) + Hypothesis split-position PBT; reference codec from Unicode Table 3-7, ICU and Python codecs as independent tables',
+         'Every scalar value through 20 transcoders, every UTF-8 byte string of length <=3 (thorough; structured sample in quick) and the structured 4-byte space '
+         'against a reference codec, all 256 bytes of every single-byte page against ICU and Python tables, every block size x split position on random strings, '
+         'and the same document in 19 encodings x BOM x declaration forms against its UTF-8 rendering.',
+         'Trusts the 40-line reference codec, ICU converters and Python codecs (bytes on which ICU and Python disagree are dropped); 11 known findings excluded by construction.',
+         '3 C05'),
+ 'C08': ('model-based PBT (Hypothesis): typed schema model, derivative-based particle matcher with counters, re.fullmatch on the expanded model as second witness, exhaustive child sequences',
+         'Generated UPA-safe schemas (occurrence ranges, nested groups, all, wildcards, substitution groups, derivation, xsi:type/nil, imports) with all child sequences up to '
+         'length 6 per content model, valid-by-construction instances and single-rule mutations; valid <=> zero errors, invalid => validity error of the planted class and '
+         'no fatal; invalid-schema mutants must be reported; PSVI type names and defaults on valid instances.',
+         'Trusts the M3 model (pbt/xsdmodel.py); XSD features with divergent readings are not generated; 10 known findings excluded by construction.',
+         '3 C08'),
+ 'C09': ('model-based PBT (Hypothesis): lexical/value/canonical/facet model per datatype with exact arithmetic, boundary-biased and near-miss generators, three-entry-point differential',
+         'For 35 built-in types and generated restrictions/lists/unions: accept <=> model, compare = model order (equal values in different lexical forms, antisymmetry, '
+         'transitivity), canonical form valid / value-preserving / idempotent, and XSValue = DatatypeValidator = in-parse validation.',
+         'Trusts the M4 model (pbt/dtypes.py); literals where editions/errata of XSD disagree are not generated (counted as unsure classes); 8 known findings excluded by construction.',
+         '3 C09'),
+ 'C10': ('model-based PBT (Hypothesis): instances built from tuple tables, XPath-subset evaluator + XSD 3.11.4 semantics as model, order/multiplicity metamorphic relations',
+         'unique/key/keyref over attribute and element fields of 7 value types with planted duplicates, absent fields, dangling references and lexically different equal values; '
+         'verdict and error class must equal the model, and permuting or adding tuples must not change the verdict.',
+         'Trusts the M5 model (pbt/icmodel.py), no second implementation exists in the image; 4 known findings excluded by construction.',
+         '3 C10'),
+ 'C11': ('model-based PBT (Hypothesis): regex AST + Thompson-NFA membership over a curated alphabet, Python re as second witness, exhaustive short subjects, option/reuse metamorphic relations',
+         'Schema-dialect patterns (classes, subtraction, categories, blocks, all quantifier forms) x all subjects up to length 5 over the pattern alphabet + sampled members / neighbours; '
+         'verdict <=> model <=> re; malformed patterns => ParseException; verdict independent of F/H options, Match object and object reuse; window form; search positions, tokenize and replace.',
+         'Trusts the M6 model (pbt/regexmodel.py) on a 39-character alphabet with stable Unicode properties; 10 known findings excluded by construction (one of them coarse: members with a proper-prefix member).',
+         '3 C11'),
+ 'C12': ('round-trip / idempotence PBT (Hypothesis) with pyexpat and Python codecs as independent witnesses; exact-bytes model of XMLFormatter escape modes',
+         'Parsed and API-built DOM trees serialised in 9 encodings x feature sets x targets: output well-formed for Xerces and pyexpat, re-parsed tree equal (isEqualNode both ways and dump equality, '
+         'pyexpat events equal), second serialisation byte-identical, unencodable characters as references or reported, inexpressible content reported; XMLFormatter bytes equal the escape-table model.',
+         'Trusts pyexpat/Python codecs and the tree model for built trees; 13 known findings excluded by construction.',
+         '3 C12'),
+ 'C15': ('differential PBT (Hypothesis): operation histories on one parser object vs the same call on a freshly constructed parser, computed inside the executor',
+         'Histories of parse / abandoned progressive parse / handler exception / feature change / loadGrammar / pool resets / adoptDocument over colliding documents; every parse and loadGrammar must '
+         'give the same canonical event dump (incl. errors and positions) as on a fresh parser with the same features and cached grammars; adopted documents stay intact.',
+         'Reference is the same build (no XML model); persistent state modelled = feature string + grammars cached via loadGrammar; PSVI excluded (known finding).',
+         '3 C15'),
+ 'C16': ('differential PBT (Hypothesis): pool A vs deserialize(serialize(A)) vs second generation, per-instance event dumps and sorted XSModel/DTD dumps',
+         'Generated DTD + schema pools covering every serialisable component kind; every instance must validate identically (verdict, codes, positions, defaults) against A, B and C, '
+         'model dumps equal, stream lengths equal, altered level stamp / non-empty pool / short stream rejected with XSerializationException.',
+         'Same-build round trips only; instance validity itself is not modelled (differential); 1 known finding excluded.',
+         '3 C16'),
+ 'C18': ('fault enumeration + PBT: recording MemoryManager (ledger) with the handler-exception point k and the abandon point j enumerated exhaustively per document; lifecycle scripts in fresh processes',
+         'Every parser class on a ledger manager x documents (valid, malformed, invalid) x endings (normal, fatal, exception at EVERY k-th callback up to kmax, progressive parse abandoned at every step) x '
+         'lifetime scripts (reuse, adopt/release order, pools, two ledgers): no foreign/repeated pointer, nothing outstanding; balanced Initialize/Terminate nestings leave the global ledger empty, same workload digest, LSan silent.',
+         'Allocation-failure paths not covered; k enumerated up to kmax (40 quick / 400 thorough).',
+         '3 C18'),
+ 'C19': ('PBT (Hypothesis) with in-process observation: wrappers around the platform file manager, net accessor and entity resolver record one ordered access log per parse; generated canary/decoy file trees; entity DAGs with computed expansion counts',
+         'Touched resources must be within what the drawn configuration permits (four "disabled" configurations, decoys, merely declared entities), every fetch must have been offered to the resolver first with the '
+         'containing entity as base, substituted ids are not fetched; E<=L parses unchanged, E>L => EntityExpansionLimitExceeded, cycles => RecursiveEntity and termination.',
+         'An access that bypassed XMLPlatformUtils::fgFileMgr / fgNetAccessor would not be seen; PE expansion is a known finding.',
+         '3 C19'),
+ 'C20': ('model-based PBT (Hypothesis): XInclude 1.0 reference implementation over generated file trees, RFC 3986 resolver (urllib as witness), resolved-base-URI comparison',
+         'Inclusion graphs (chains, diamonds, include as document element, text includes in 5 encodings, fallbacks, cycles, invalid usages) under DOM/DOMLS: merged tree equals the model modulo xml:base, '
+         'every element resolves to the model base URI, loops and invalid usage are reported and the parse terminates.',
+         'Trusts the M8 model (pbt/xincmodel.py); 7 known findings excluded by construction.',
+         '3 C20'),
  'C03': ('model-based PBT (Hypothesis): constructive infoset->text renderer, expected event list from the model, pyexpat second witness',
          'Generated-input search: random infosets rendered with random lexical forms, each parsed through one of 7 API variants x scanner x '
          'namespace/entity configuration; the canonical event dump must equal the list derived from the model (and pyexpat must agree with the '
@@ -52,7 +109,7 @@ def main():
             'thorough_cmd': './vcheck %s --tier thorough' % pid,
             'evidence_file': '/verif/evidence/%s.json' % pid,
             'replay_cmd_template': './vcheck %s --replay {path}' % pid,
-            'engine': 'E-FUZZ' if pid == 'C01' else 'E-HYP',
+            'engine': 'E-FUZZ' if pid == 'C01' else ('E-ENUM' if pid == 'C05' else 'E-HYP'),
             'level_claimed': {'category': 'exploration', 'text': text, 'design_ref': 'DESIGN.md section ' + ref},
             'level_note': note,
             'technique': tech,
@@ -71,7 +128,7 @@ def main():
         'engines': [
             {'name': 'E-HYP', 'path': 'pbt/', 'serves_properties': [c for c in CLAIMED], 'kind_free_text': 'Hypothesis strategies + Python reference models driving C++ executors (harness/xv*.cpp, ASan+UBSan) over pipes'},
             {'name': 'E-FUZZ', 'path': 'harness/fz_*.cpp', 'serves_properties': ['C01'], 'kind_free_text': 'libFuzzer targets with in-target semantic oracles'},
-            {'name': 'E-ENUM', 'path': 'harness/xvtc*.cpp', 'serves_properties': [], 'kind_free_text': 'exhaustive C++ enumeration + rapidcheck'},
+            {'name': 'E-ENUM', 'path': 'harness/xvtc*.cpp', 'serves_properties': ['C05'], 'kind_free_text': 'exhaustive C++ enumeration + rapidcheck'},
         ],
         'checks': checks,
         'notes': 'See DESIGN.md. Every check rebuilds libxerces-c from /repo\'s working tree (incremental, clang ASan+UBSan) before it runs.',
